@@ -5,7 +5,8 @@ from . import sweeps
 def run(ctx):
     rep = ctx.report
     rep.rule = ("derive_session_event (built without LLTD_TESTING) on harness-built Discovers: every count 1..240 x every "
-                "position of the own address (and absent) x 5 session-table variants, plus all 256 opcodes x both Reset "
+                "position of the own address (and absent) x 9 session-table variants, each variant again after the clock moved on by "
+                "59 s, 60 s, 61 s, 62 s, 1 h and 2^33 ms since the sessions were recorded (no expiry tick in between), plus all 256 opcodes x both Reset "
                 "destinations; non-trivial = own address present (recognition needed) or opcode classification case")
     rep.assumptions = ["station list = consecutive 6-byte addresses at offset 36 (MS-LLTD)",
                        "filler bytes are >= 0x80 so the own address cannot appear at any other alignment"]
@@ -13,3 +14,4 @@ def run(ctx):
     sweeps.run_sweep(ctx, "c11", [[s, 240] for s in seeds], "C11")
     rep.exhaustive = True
     rep.need("cases", rep.counters.get("sweep_c11_cases", 0), 145000)
+    rep.need("clock_advanced_cases", rep.counters.get("sweep_c11_clock_advanced_cases", 0), 15000)
